@@ -130,6 +130,7 @@ pub fn check(c: &Case, cs: &mut CaseStats) -> Result<(), String> {
 
     // ---- (a) reference-free part, every cell: radius >= 2 |v - g| for every reported vertex
     let vi = obs::integrator(c, None);
+    let mut fars = vec![0f64; n];
     for i in 0..n {
         let cell = vi.get_cell_at(i).ok_or_else(|| format!("cell {i} missing in a full build"))?;
         let sr_i = hooks::cell_safety_radius(cell);
@@ -146,11 +147,38 @@ pub fn check(c: &Case, cs: &mut CaseStats) -> Result<(), String> {
             }
             far = far.max(q.sqrt());
         }
+        fars[i] = far;
         let slack = 1e-12 * far + 64. * tol::U * c.scale_l();
         if srs[i] < 2. * far - slack {
             return Err(format!("cell {i}: safety radius {:e} is smaller than twice the distance {:e} to its own farthest vertex (active subspace)", srs[i], far));
         }
         cs.count("cells_vertex_bound_checked", 1);
+    }
+
+    // ---- (a') the radius every other entry point reports for the same cell: through cells with
+    // stored faces (3D) and through the conversion of either integrator into a Voronoi. The bound
+    // is a statement about "the reported safety radius of a constructed cell", whichever way the
+    // cell was obtained; the state transitions copy the cell, they must not lose the radius.
+    {
+        let mut routes: Vec<(&str, Vec<f64>)> = vec![("Voronoi::from(&integrator)", meshless_voronoi::Voronoi::from(&vi).cells().iter().map(|x| x.safety_radius()).collect())];
+        if c.dim == 3 {
+            let wf = vi.clone().with_faces();
+            routes.push(("VoronoiIntegrator::with_faces() cells", (0..n).map(|i| wf.get_cell_at(i).map_or(f64::NAN, hooks::cell_safety_radius)).collect()));
+            routes.push(("Voronoi::from(&integrator.with_faces())", meshless_voronoi::Voronoi::from(&wf).cells().iter().map(|x| x.safety_radius()).collect()));
+            let back = wf.get_cell_at(0).map(|x| hooks::cell_safety_radius(&x.clone().discard_faces()));
+            if let Some(b) = back {
+                routes.push(("with_faces().discard_faces() of cell 0", std::iter::once(b).chain(srs.iter().skip(1).copied()).collect()));
+            }
+        }
+        for (what, r) in &routes {
+            for i in 0..n {
+                let slack = 1e-12 * fars[i] + 64. * tol::U * c.scale_l();
+                if !(r[i].is_finite() && r[i] > 0. && r[i] >= 2. * fars[i] - slack) {
+                    return Err(format!("cell {i}: the safety radius reported through {what} is {:e}: not a positive finite number at least twice the distance {:e} to the cell's farthest vertex (Voronoi::build reports {:e})", r[i], fars[i], srs[i]));
+                }
+            }
+            cs.count("radius_routes_compared", 1);
+        }
     }
 
     // ---- choose the cell of the history: biased towards small radii (room for additions)
@@ -390,7 +418,7 @@ pub fn check(c: &Case, cs: &mut CaseStats) -> Result<(), String> {
 pub fn def() -> PropDef {
     PropDef {
         id: "C16",
-        rule: "cases: valid inputs weighted to uniform and clustered sets with n up to 120 (quick) / 300 (thorough) (so that safety balls smaller than the box exist), plus lattices, wall points, co-spherical, coplanar, dyadic, shared-coordinate, n = 1/2; all dimensionalities, periodic or not, aspect to 2^14, offsets to 2^12. (a) every cell: radius >= 2 x distance to each reported vertex (active subspace); the chosen cell and up to 3 others: radius >= 2 x farthest point of the brute-force cell and >= distance to every neighbour with a non-negligible reference face. (b) history: a cell is chosen (biased to small radii); 1..20 further generators are placed by construction at minimum-image distance > radius (70% of them at 1.0..1.5 radii in a random direction, cubic bias towards 1.0; the rest anywhere in the box), appended in 1..3 batches; after each batch the whole tessellation is rebuilt and the chosen cell compared with the original: radius, volume, centroid, complete face map (neighbour, shift) -> area, centroid, within the rounding tolerance derived from the cell's conditioning; no face towards an added generator. non-trivial: >= 1 generator added and the nearest addition within 1.5 radii; sub-label for within 1.05 radii; distinct by case hash. Bitwise-unchanged histories are counted but not demanded (equidistant candidates may be visited in another order once the r-tree changes).",
+        rule: "cases: valid inputs weighted to uniform and clustered sets with n up to 120 (quick) / 300 (thorough) (so that safety balls smaller than the box exist), plus lattices, wall points, co-spherical, coplanar, dyadic, shared-coordinate, n = 1/2; all dimensionalities, periodic or not, aspect to 2^14, offsets to 2^12. (a) every cell: radius >= 2 x distance to each reported vertex (active subspace); the chosen cell and up to 3 others: radius >= 2 x farthest point of the brute-force cell and >= distance to every neighbour with a non-negligible reference face. (b) history: a cell is chosen (biased to small radii); 1..20 further generators are placed by construction at minimum-image distance > radius (70% of them at 1.0..1.5 radii in a random direction, cubic bias towards 1.0; the rest anywhere in the box), appended in 1..3 batches; after each batch the whole tessellation is rebuilt and the chosen cell compared with the original: radius, volume, centroid, complete face map (neighbour, shift) -> area, centroid, within the rounding tolerance derived from the cell's conditioning; no face towards an added generator. non-trivial: >= 1 generator added and the nearest addition within 1.5 radii; sub-label for within 1.05 radii; distinct by case hash. Bitwise-unchanged histories are counted but not demanded (equidistant candidates may be visited in another order once the r-tree changes). The vertex bound is also applied to the radius reported for the same cells through the other entry points: Voronoi::from(&integrator), and in 3D the cells of VoronoiIntegrator::with_faces(), Voronoi::from(&integrator.with_faces()) and with_faces().discard_faces().",
         strategy,
         check,
         cases: |t| t.pick(3000, 100_000),
